@@ -74,3 +74,26 @@ Proof.
   exact (loop_preserves constant_prop_pass cp_round_ok cp_steady dflt (cp_round dflt)
            _ _ nl inss st Hok Hst Hins Hregs).
 Qed.
+
+(* the decidable form of the steady-state hypothesis implies it *)
+Lemma cp_steadyb_sound nl st : cp_steadyb nl (sregs st) = true -> cp_steady nl st.
+Proof.
+  intros H r Hr. unfold cp_folded in Hr. apply existsb_exists in Hr.
+  destruct Hr as [n [Hin Hn]]. apply andb_true_iff in Hn. destruct Hn as [Hf Hd].
+  unfold cp_steadyb in H. rewrite forallb_forall in H. specialize (H n Hin). rewrite Hf in H.
+  assert (ndest n = r) by lia. subst r. lia.
+Qed.
+
+Lemma cp_loop_steadyb_sound : forall fuel prev nl st,
+  cp_loop_steadyb fuel prev nl (sregs st) = true ->
+  loop_steady constant_prop_pass cp_steady fuel prev nl st.
+Proof.
+  induction fuel as [|f IH]; intros prev nl st H; cbn [loop_steady cp_loop_steadyb] in *; [exact I|].
+  destruct (Z.of_nat (length (nets nl)) <=? prev - 1); [|exact I].
+  apply andb_true_iff in H. destruct H as [H1 H2].
+  split; [apply cp_steadyb_sound; assumption|apply IH; assumption].
+Qed.
+
+Lemma constant_propagation_steadyb_sound nl st :
+  constant_propagation_steadyb nl (sregs st) = true -> cp_loop_steady nl st.
+Proof. apply cp_loop_steadyb_sound. Qed.
